@@ -115,7 +115,7 @@ func (s *Server) parseOne(sql string) (*parsed, *PgError) {
 		}
 		if maxParam != len(q.Params) {
 			return nil, &PgError{Code: "42P02", Message: fmt.Sprintf(
-				"pgfake: query %q is registered with %d parameter(s) but its SQL uses $%d: %s", name, len(q.Params), maxParam, sql)}
+				"pgfake: query %q is registered with %d parameter(s) but its SQL uses $%d (wrong registration, or the client interpolated the arguments: the simple protocol is not supported for statements with parameters): %s", name, len(q.Params), maxParam, sql)}
 		}
 		verb := strings.ToUpper(strings.TrimSpace(q.Tag))
 		if verb == "" {
